@@ -392,7 +392,7 @@ type closureVal struct {
 // Paths enumerates the paths of entry. The result is cached per (function, options signature).
 func (p *Prog) Paths(entry *ssa.Function, opts PSOpts) []*Path {
 	if opts.MaxDepth == 0 {
-		opts.MaxDepth = 8
+		opts.MaxDepth = 12
 	}
 	if opts.MaxPaths == 0 {
 		opts.MaxPaths = 6000
@@ -1225,6 +1225,10 @@ func foldCompare(op, a, b string) (bool, bool) {
 		return x > y, true
 	case ">=":
 		return x >= y, true
+	case "==":
+		return x == y, true
+	case "!=":
+		return x != y, true
 	}
 	return false, false
 }
@@ -1332,6 +1336,32 @@ func (x *explorer) instr(st *state, fr *frame, in ssa.Instruction) {
 				}
 			}
 		}
+		// comparisons whose outcome is known: constants, and the sign of a range index
+		switch ins.Op {
+		case token.LSS, token.LEQ, token.GTR, token.GEQ, token.EQL, token.NEQ:
+			if a.Op == "const" && b.Op == "const" {
+				if r, ok := foldCompare(ins.Op.String(), a.Name, b.Name); ok {
+					x.set(st, fr, ins, mkConst(fmt.Sprint(r), ins.Type()))
+					return
+				}
+			}
+			if a.Op == "idx" && b.Op == "const" {
+				var k int64
+				if _, err := fmt.Sscan(b.Name, &k); err == nil {
+					known, val := false, false
+					switch {
+					case ins.Op == token.GEQ && k <= 0, ins.Op == token.GTR && k < 0, ins.Op == token.NEQ && k < 0:
+						known, val = true, true
+					case ins.Op == token.LSS && k <= 0, ins.Op == token.LEQ && k < 0, ins.Op == token.EQL && k < 0:
+						known, val = true, false
+					}
+					if known {
+						x.set(st, fr, ins, mkConst(fmt.Sprint(val), ins.Type()))
+						return
+					}
+				}
+			}
+		}
 		x.set(st, fr, ins, &T{Op: "binop", Name: ins.Op.String(), Args: []*T{a, b}, V: ins, Typ: concreteType(ins.Type())})
 	case *ssa.MakeInterface:
 		xv := x.val(st, fr, ins.X)
@@ -1374,6 +1404,16 @@ func (x *explorer) instr(st *state, fr *frame, in ssa.Instruction) {
 		tv := x.val(st, fr, ins.Tuple)
 		if tv.Op == "tuple" && ins.Index < len(tv.Args) {
 			x.set(st, fr, ins, tv.Args[ins.Index])
+			return
+		}
+		// strings.CutPrefix(s, p) is (strings.TrimPrefix(s, p), strings.HasPrefix(s, p)); likewise CutSuffix
+		if tv.Op == "call" && (tv.Name == "strings.CutPrefix" || tv.Name == "strings.CutSuffix") && len(tv.Args) == 2 {
+			kind := strings.TrimPrefix(tv.Name, "strings.Cut")
+			name := "strings.Trim" + kind
+			if ins.Index == 1 {
+				name = "strings.Has" + kind
+			}
+			x.set(st, fr, ins, &T{Op: "call", Name: name, Args: tv.Args, N: tv.N, V: ins, Typ: concreteType(ins.Type())})
 			return
 		}
 		x.set(st, fr, ins, &T{Op: "res", Name: fmt.Sprint(ins.Index), Args: []*T{tv}, V: ins, Typ: concreteType(ins.Type())})
@@ -1624,7 +1664,7 @@ func (x *explorer) load(st *state, fr *frame, addr *T, ins *ssa.UnOp) *T {
 var pureExternals = map[string]bool{
 	"strings.HasPrefix": true, "strings.HasSuffix": true, "strings.TrimPrefix": true, "strings.TrimSuffix": true,
 	"strings.Split": true, "strings.SplitN": true, "strings.Join": true, "strings.Contains": true, "strings.Count": true,
-	"strings.ReplaceAll": true, "strings.Cut": true, "strings.ToLower": true, "strings.TrimSpace": true,
+	"strings.ReplaceAll": true, "strings.Cut": true, "strings.CutPrefix": true, "strings.CutSuffix": true, "strings.ToLower": true, "strings.TrimSpace": true,
 	"fmt.Sprintf": true, "fmt.Errorf": true, "fmt.Sprint": true, "errors.Is": true, "errors.Join": true, "errors.New": true,
 	"maps.Clone": true, "slices.Clone": true, "maps.Keys": true, "slices.Sorted": true, "golang.org/x/exp/slices.Clone": true,
 	"path/filepath.Base": true, "path/filepath.Dir": true, "path/filepath.Join": true, "path/filepath.Ext": true,
